@@ -16,7 +16,8 @@ EXPLANATION = (
     " (g) Every path that ends a hostname search purges its pending ResolveHostname rerun."
     " (h) HostnameResolutionEvent sends are lossless; keys of hostname_resolvers and addr are folded by one function."
     " (i) A function that compares a record type with A or AAAA compares it with both. The doubling schedule of the hostname search (C19a) is checked here too."
-    " (j) refresh_due_hostname_resolutions returns one entry per due address record (name, address), not one per host.")
+    " (j) refresh_due_hostname_resolutions returns one entry per due address record (name, address), not one per host."
+    " (k) The tail of handle_response always walks the address changes for the hostname resolvers.")
 UNDECIDED = ["which addresses are reported over which arrival history", "exact time of SearchTimeout",
              "doubling schedule (decided under C19)"]
 
